@@ -1,14 +1,26 @@
-(* compact.rs: the byte-level bit buffer implements bit-list append.
+(* compact.rs: the byte-level bit buffer implements bit-list append.  (Depends on Proofs/BitsBase.v.)
 
-   Abstraction: [bits_of c] = the first [clen c] bits of the bytes, [Inv c] = bytes are bytes, clen fits, everything
-   after clen is 0.  Main results (see the end of the file for the task-shaped statements):
-     keep_last_is_ones, push_u8_spec, push_bits_spec, push_u8_slice_spec, fill_spec, from_version_Inv,
-     and the versions without the "fits" precondition (the _gen lemmas).
+   Abstraction: [bits_of c] = the first [clen c] bits of the bytes; [Inv c] = all bytes < 256, clen <= 8 * |data|,
+   every bit after clen is 0.  Route: big-endian integer abstraction  R c V := val (cdata c) = V * 2^(8|data| - clen),
+   one primitive step [add_small]/[prim] (add n bits below the written bits of the current byte), and
+   [Ext c c' bs] := Inv c' /\ bits_of c' = bits_of c ++ bs /\ clen c' = clen c + |bs| /\ |cdata c'| = |cdata c|.
 
-   NOTE on the "fits" precondition: it has to be STRICT (clen + w < 8 * |data|).  With clen + w = 8 * |data| the
-   Rust code (increase_len: `if data_length / 8 >= self.data.len() { resize(data_length / 8 + 1) }`) grows the
-   vector by one zero byte, so "length preserved" is false for an exact fit.  Inv / bits_of still hold (gen versions).
-   The hypothesis x < 2^64 of the task statement is not needed (bits are masked with KEEP_LAST[w] = 2^w - 1). *)
+   Main theorems (all Qed, closed under the global context; nothing is left unproved):
+     keep_last_is_ones     k <= 64 -> keep_last k = N.ones k                      (65-case kernel check)
+     push_u8_spec          Inv c -> b < 256 -> clen c + 8 < 8 * |data| -> Inv /\ bits ++ be_bits 8 b /\ length kept
+     push_bits_spec        Inv c -> w <= 64 -> clen c + w < 8 * |data| ->
+                           Inv /\ bits ++ be_bits w x /\ length kept /\ push_bits_panics = false      (holds for w = 0)
+     push_u8_slice_spec, fill_spec (fill appends fill_count c pad bytes 236,17,...; fill_panics = false), from_version_Inv
+     push_u8_spec_gen, push_bits_spec_gen, push_u8_slice_spec_gen, fill_spec_gen   (no fits precondition)
+     push_bits_carry_false (the u8 `+=` carry condition evaluated on the REAL intermediate buffer is false as well)
+
+   CHANGES with respect to the task statement:
+   * the "fits" precondition is STRICT (clen + w < 8 * |data|).  With clen + w = 8 * |data| the Rust code
+     (increase_len: `if data_length / 8 >= self.data.len() { resize(data_length / 8 + 1) }`) grows the vector by one
+     zero byte, so "length preserved" is false for an exact fit (Example push_u8_exact_fit_grows).  Inv and bits_of
+     still hold in that case (the _gen theorems).
+   * the hypothesis x < 2^64 of push_bits_spec is not needed (the bits are masked with KEEP_LAST[w] = 2^w - 1) and
+     has been dropped (stronger statement). *)
 From Coq Require Import NArith List Bool Arith Lia ZArith.
 From Coq Require Import ZifyBool ZifyNat ZifyN.
 From FQ Require Import Lib.ListX Generated.Tables Model.Types Model.Hardcode Model.Compact Spec.Iso Proofs.BitsBase.
@@ -720,4 +732,97 @@ Proof.
   intros HI Hs. unfold push_u8_slice.
   destruct (increase_len_spec c (clen c + 8 * N.of_nat (length s)) HI) as (I' & B' & L' & _).
   destruct (fold_push_u8_gen s _ I' Hs) as (I2 & B2 & _). rewrite B2, B'. auto.
+Qed.
+
+Theorem fill_spec_gen c : Inv c ->
+  Inv (fill c) /\ bits_of (fill c) = bits_of c ++ bytes_bits (iso_pads (fill_count c) true).
+Proof.
+  intros HI. unfold fill.
+  assert (H : forall n i c', Inv c' ->
+            Inv (fill_loop n i c') /\ bits_of (fill_loop n i c') = bits_of c' ++ bytes_bits (iso_pads n (i mod 2 =? 0))).
+  { induction n as [|n IH]; intros i c' HI'.
+    - cbn [fill_loop iso_pads]. split; [exact HI' | now rewrite app_nil_r].
+    - rewrite fill_loop_S, pad_byte. cbn [iso_pads]. rewrite bytes_bits_cons.
+      set (b := if i mod 2 =? 0 then 236 else 17).
+      assert (Hb : b < 256) by (subst b; destruct (i mod 2 =? 0); reflexivity).
+      destruct (push_u8_gen c' b HI' Hb) as (I1 & B1 & _).
+      destruct (IH (i + 1) (push_u8 c' b) I1) as (I2 & B2).
+      replace ((i + 1) mod 2 =? 0) with (negb (i mod 2 =? 0)) in B2.
+      2:{ destruct (N.eqb_spec (i mod 2) 0), (N.eqb_spec ((i + 1) mod 2) 0); cbn [negb]; auto; lia. }
+      split; [exact I2|]. now rewrite B2, B1, app_assoc. }
+  exact (H (fill_count c) 0 c HI).
+Qed.
+
+(* why the fits precondition must be strict: an exact fit grows the vector by one byte (as in the Rust code) *)
+Example push_u8_exact_fit_grows :
+  length (cdata (push_u8 {| clen := 0; cdata := [0] |} 5)) = 2%nat.
+Proof. reflexivity. Qed.
+
+(* The model's [push_bits_panics] evaluates the u8 `+=` carry condition on a buffer whose partially filled byte has NOT
+   been or-ed (its c1 keeps [cdata c]).  The faithful condition -- on the real intermediate buffer -- is also false: *)
+Definition push_bits_carry_body (c : cq) (bits0 len : N) : bool :=
+  let bits := N.land bits0 (keep_last len) in
+  let rem_space := (8 - clen c mod 8) mod 8 in
+  let first := clen c / 8 in
+  if len <? rem_space then false else
+    let c1 := if rem_space =? 0 then c
+              else {| clen := clen c + rem_space;
+                      cdata := or_at (cdata c) first (to_u8 (N.land (N.shiftr bits (len - rem_space)) (keep_last rem_space))) |} in
+    let l := len - rem_space in
+    let c2 := push_bytes_loop (S (N.to_nat (l / 8))) c1 bits l in
+    let remaining := l mod 8 in
+    if remaining =? 0 then false
+    else 255 <? getN (cdata c2) (clen c2 / 8) + to_u8 (N.shiftl (to_u8 (N.land bits (keep_last remaining))) (8 - remaining)).
+Definition push_bits_carry (c0 : cq) (bits0 len : N) : bool :=
+  push_bits_carry_body (increase_len c0 (clen c0 + len)) bits0 len.
+
+Lemma push_bits_carry_body_false c x w : Inv c -> w <= 64 -> clen c + w < 8 * dlen c ->
+  push_bits_carry_body c x w = false.
+Proof.
+  intros HI Hw Hfit. unfold push_bits_carry_body.
+  rewrite (land_keep_last x w Hw).
+  assert (Hy : x mod 2 ^ w < 2 ^ w) by (apply N.mod_upper_bound, pow2_nz).
+  set (y := x mod 2 ^ w) in *. clearbody y. clear x.
+  set (r := clen c mod 8). set (first := clen c / 8).
+  assert (Hr8 : r < 8) by (subst r; lia).
+  assert (HL : clen c = 8 * first + r) by (subst first r; lia).
+  set (rs := (8 - r) mod 8).
+  assert (Hrs : rs = 0 /\ r = 0 \/ rs = 8 - r /\ 0 < r) by (subst rs; lia).
+  assert (Hf : first < dlen c) by lia.
+  destruct (N.ltb_spec w rs) as [Hlt|Hge]; [reflexivity|].
+  set (l := w - rs).
+  assert (Hz1 : N.shiftr y l < 2 ^ rs).
+  { rewrite N.shiftr_div_pow2. apply N.div_lt_upper_bound; [apply pow2_nz|].
+    rewrite <- N.pow_add_r. replace (l + rs) with w by (subst l; lia). exact Hy. }
+  set (c1 := if rs =? 0 then c
+             else {| clen := clen c + rs;
+                     cdata := or_at (cdata c) first (to_u8 (N.land (N.shiftr y l) (keep_last rs))) |}).
+  assert (E1 : Ext c c1 (be_bits (N.to_nat rs) (N.shiftr y l))).
+  { subst c1. destruct (N.eqb_spec rs 0) as [H0|H0].
+    - rewrite H0. cbn [be_bits]. now apply Ext_refl.
+    - destruct Hrs as [[H0' _]|[Hrs Hr0]]; [lia|].
+      rewrite land_keep_last by lia. rewrite (N.mod_small _ _ Hz1).
+      rewrite to_u8_small by (eapply N.lt_le_trans; [exact Hz1 | apply pow2_le_256; clear - Hrs Hr8; lia]).
+      apply prim_or; [exact HI | reflexivity | exact Hf | fold r; clear - Hrs; lia | exact Hz1 | | reflexivity].
+      fold r. replace (8 - r - rs) with 0 by (clear - Hrs; lia). change (2 ^ 0) with 1. lia. }
+  clearbody c1.
+  pose proof E1 as (I1 & _ & L1 & D1). rewrite be_bits_length in L1.
+  assert (Hk1 : dlen c1 = dlen c) by (unfold dlen; now rewrite D1).
+  set (c2 := push_bytes_loop (S (N.to_nat (l / 8))) c1 y l).
+  assert (E2 : Ext c1 c2 (be_bits (8 * N.to_nat (l / 8)) (N.shiftr y (l mod 8)))).
+  { subst c2. apply push_bytes_loop_spec; [exact I1 | rewrite Hk1, L1; subst l; lia | lia]. }
+  clearbody c2.
+  pose proof E2 as (I2 & _ & L2 & D2). rewrite be_bits_length in L2.
+  assert (Hk2 : dlen c2 = dlen c) by (unfold dlen; now rewrite D2, D1).
+  assert (HL2 : clen c2 = clen c + rs + 8 * (l / 8)) by lia.
+  destruct (N.eqb_spec (l mod 8) 0) as [Hrem|Hrem]; [reflexivity|].
+  rewrite Inv_byte_zero; [| exact I2 | rewrite Hk2; clear - HL2 Hfit Hge Hrem; subst l; lia | rewrite HL2; clear; lia].
+  apply N.ltb_ge. unfold to_u8. clear. lia.
+Qed.
+
+Theorem push_bits_carry_false c x w : Inv c -> w <= 64 -> push_bits_carry c x w = false.
+Proof.
+  intros HI Hw. unfold push_bits_carry.
+  destruct (increase_len_spec c (clen c + w) HI) as (I' & B' & L' & F').
+  apply push_bits_carry_body_false; auto. lia.
 Qed.
